@@ -55,6 +55,10 @@ def cells(tier, seed):
             if tier == "quick" and G in ("C2rot", "triv") and si:
                 continue
             out.append({"w": "ga", "D": 2, "N": 3, "G": G, "sig": si, "mode": "always"})
+    # non-square / non-cubic images with groups that exchange axes (the wrapper's own use of the MultiImage action, both directions)
+    out.append({"w": "ga", "D": 2, "N": 3, "shape": (3, 2), "G": "B", "sig": 0, "mode": "always"})
+    out.append({"w": "ga", "D": 2, "N": 3, "shape": (2, 3), "G": "C4", "sig": 3, "mode": "always"})
+    out.append({"w": "ga", "D": 3, "N": 2, "shape": (1, 2, 3), "G": "rot" if tier == "thorough" else "B", "sig": 0, "mode": "inference"})
     out.append({"w": "ga", "D": 2, "N": 3, "G": "B", "sig": 0, "mode": "inference"})
     out.append({"w": "ga", "D": 2, "N": 3, "G": "B", "sig": 1, "mode": "off"})
     out.append({"w": "ga", "D": 2, "N": 3, "G": "B", "sig": 0, "mode": "empty"})
@@ -111,7 +115,7 @@ def _ga(cfg, cx):
     in_sig = [(tuple(q), c) for q, c in in_sig]
     out_sig = [(tuple(q), c) for q, c in out_sig]
     ops = _groups(D)[cfg["G"]]
-    shape = (N,) * D
+    shape = tuple(cfg["shape"]) if cfg.get("shape") else (N,) * D
     inner = stubs.make_uf_model("f", out_sig)
     mode = cfg["mode"]
     if mode == "always":
@@ -130,7 +134,7 @@ def _ga(cfg, cx):
         meta["keys"] = list(out.keys())
         meta["D"] = out.D
         return dict(out.data)
-    ckey = f"G={cfg['G']}:D={D}:sig={cfg['sig']}:mode={mode}"
+    ckey = f"G={cfg['G']}:D={D}:sig={cfg['sig']}:mode={mode}" + (f":shape={shape}" if cfg.get("shape") else "")
     base = I.sym_call(run, x)
     cx.structural("output types", set(base) == {q for q, _ in out_sig}, f"{sorted(base)}", key=f"types:{ckey}")
     if mode in ("off", "empty"):
@@ -143,7 +147,8 @@ def _ga(cfg, cx):
     acc = None
     for g in ops:
         gx = {q: refs.ref_action(D, v.a, q[1], g, lead=1) for q, v in x.items()}
-        fo = stubs.uf_model_apply("f", gx, out_sig, shape, D)
+        gshape = tuple(next(iter(gx.values())).shape[1:1 + D])  # the extents travel with their axes (non-square images)
+        fo = stubs.uf_model_apply("f", gx, out_sig, gshape, D)
         back = {q: refs.ref_action(D, fo[q], q[1], np.asarray(g).T, lead=1) for q in fo}
         acc = back if acc is None else {q: acc[q] + back[q] for q in acc}
     for q in acc:
